@@ -782,6 +782,13 @@ def stream_fills_frame(cx, facts, R):
                                     ev.add((bb, 0))
                             if e[0] == "call" and e[1].endswith("is_empty") and f["val"] is True and render(e[2][0]) == vexpr:
                                 ev.add((bb, 0))
+                    # ... or an edge on which the vector's length is known to be 0 (`if query_len > 0 { read }`)
+                    stn = a.state_at(term_pt(b, i))
+                    lnv = stn.get(("len", ("L", vl)))
+                    if lnv is not None:
+                        for bb in b.live_blocks():
+                            if (bb, 0) not in ev and entails_le(a.facts_at(bb), lnv, Form.const(0)):
+                                ev.add((bb, 0))
                     w = must_cross(b, [(0, 0)], [term_pt(b, i)], ev, after_start=False)
                     R.check(w is None and bool(ev), "stream-fills-frame", path, "%s vector is read completely (or is empty) before the message is built" % nm,
                             "a path reaches Message::new without a successful read_exact over the whole %s vector (blocks %s): a stream truncated inside the %s would be accepted"
